@@ -24,10 +24,11 @@ type exporter interface {
 
 // chunkReader delivers its data in chunks of the given size and fails (or ends) after failAt chunks
 type chunkReader struct {
-	data   []byte
-	size   int
-	n      int
-	failAt int
+	data        []byte
+	size        int
+	n           int
+	failAt      int
+	eofWithData bool // deliver the final chunk together with io.EOF (the io.Reader contract allows it)
 }
 
 var errReader = errors.New("injected reader failure")
@@ -49,6 +50,9 @@ func (c *chunkReader) Read(p []byte) (int, error) {
 	copy(p, c.data[:k])
 	c.data = c.data[k:]
 	c.n++
+	if c.eofWithData && len(c.data) == 0 {
+		return k, io.EOF
+	}
 	return k, nil
 }
 
@@ -58,9 +62,9 @@ type tmplEvent struct {
 	Lang      string            `json:"lang"`
 	S         string            `json:"s"`
 	Rep       map[string]string `json:"rep"`
-	Segs      []map[string]any  `json:"segs"`   // empty: template outside the modelled grammar
+	Segs      []map[string]any  `json:"segs"` // empty: template outside the modelled grammar
 	Text      string            `json:"text"`
-	Mode      string            `json:"mode"`   // string | reader
+	Mode      string            `json:"mode"` // string | reader
 	Chunk     int               `json:"chunk"`
 	FailAt    int               `json:"failAt"` // -1: the reader does not fail
 	NilReader bool              `json:"nilReader"`
@@ -137,7 +141,7 @@ func runExport(rep any, nilReport bool, lvl byte, text string, mode string, chun
 	} else if nilReader {
 		r, err = ex.ExportWith(nil)
 	} else {
-		r, err = ex.ExportWith(&chunkReader{data: []byte(text), size: chunk, failAt: failAt})
+		r, err = ex.ExportWith(&chunkReader{data: []byte(text), size: chunk, failAt: failAt, eofWithData: mode == "reader-eof"})
 	}
 	ok = err == nil
 	sent = sentinelsOf(err)
@@ -194,6 +198,14 @@ func cmdTmpl(args []string) {
 	grammar := len(ts)
 	for _, s := range randomTemplates {
 		ts = append(ts, tin{nil, s})
+	}
+	// long templates: beyond any fixed-size read buffer
+	for _, n := range []int{511, 512, 513, 4095, 4096, 4097, 8191, 8193, 65536, 70001, 1 << 20} {
+		pad := make([]byte, n)
+		for i := range pad {
+			pad[i] = "abcdefghij"[i%10]
+		}
+		ts = append(ts, tin{nil, "{{.Vector}}" + string(pad) + "{{.BaseScore}}"}, tin{nil, string(pad[:n-3]) + "{{.Vector}}" + string(pad[:7])})
 	}
 	// a few reports of every level and language
 	type rp struct {
@@ -261,6 +273,7 @@ func cmdTmpl(args []string) {
 			}
 			emit("string", 0, -1, false, false)
 			emit("reader", []int{1, 7, 1 << 20}[(i+ri)%3], -1, false, false)
+			emit("reader-eof", []int{1 << 20, 1, 5}[(i+ri)%3], -1, false, false)
 			if (i+ri)%5 == 0 {
 				nchunks := (len(text) + 2) / 3
 				emit("reader", 3, rng.Intn(nchunks+1), false, false) // fails before/at/after some chunk
